@@ -73,6 +73,14 @@ def gen_cases(rng, tier):
                     ops.append(["q_num", op, f"{a}@{u}", "1", MODE])
                 else:
                     ops.append(["q_bin", op, f"{a}@{u}", f"{b}@{v}", MODE])
+            elif lin and rng.random() < .4:
+                # multiplication by a number of any kind (int, float, Fraction,
+                # Decimal) scales the exact amount - it distributes over sums
+                u = rng.choice(lin)
+                a = _qty.tok(rng, _qty.amount(rng))
+                k = _qty.kind_tok(rng, rng.choice([Fraction(3), Fraction(-7, 3), Fraction(0.1), Fraction(5, 2),
+                                                   Fraction(1, 8), Fraction(2.5), Fraction(1, 3)]))
+                ops.append(["q_num", "mul", f"{a}@{u}", k, MODE])
             elif lin:
                 u = rng.choice(lin)
                 same = [x for x in lin if ctx.units[x]["cls"] == ctx.units[u]["cls"]]
@@ -120,6 +128,11 @@ def oracle(case, impl):
                 exp = "ok " + ctx.qty(ctx.grid(u, (x * su + sign * y * sv) / su, o[4]), u)
                 if out != exp:
                     fails.append({"site": "add:value", "msg": f"{o} -> {out}, expected {exp}"})
+        elif o[0] == "q_num" and o[1] == "mul":
+            a, _, u = o[2].rpartition("@")
+            exp = "ok " + ctx.qty(_qty.tok_value(a) * _qty.tok_value(o[3]), u)
+            if out != exp:
+                fails.append({"site": "add:scalar-multiple", "msg": f"{o} -> {out}, expected {exp}"})
         elif o[0] == "q_num" and o[1] in ("neg", "abs"):
             a, _, u = o[2].rpartition("@")
             x = _qty.tok_value(a)
